@@ -88,3 +88,28 @@ def run(chk):
       chk.violation(key, bad, beh)
   chk.cov['nnx_rng_histories'] = n
   chk.sample({'spec': 'NnxRng', 'history': [{k: v for k, v in e.items() if k != 'ids'} for e in sim['exports'][0]['h']]})
+  # ---- an Rngs object passed *unsplit* (axis None) into nnx.vmap / nnx.scan: the draws made inside advance the stream, so the
+  # first draw after the transform is a key that was not handed out inside it
+  import numpy as _np
+  import jax.numpy as _jnp
+
+  def kdata(k):
+    return tuple(_np.asarray(jax.random.key_data(k)).ravel().tolist())
+  for tr in ('vmap', 'scan'):
+    key = f'C09:nnx:{tr}:unsplit-rngs-drawn-inside'
+    chk.count(key)
+    try:
+      rngs = nnx.Rngs(0)
+      if tr == 'vmap':
+        inside = nnx.vmap(lambda r, x: jax.random.key_data(r()), in_axes=(nnx.StateAxes({...: None}), 0))(rngs, _jnp.ones((3,)))
+      else:
+        _, inside = nnx.scan(lambda r, c: (c, jax.random.key_data(r())), in_axes=(nnx.StateAxes({...: None}), nnx.Carry),
+                             out_axes=(nnx.Carry, 0), length=3)(rngs, 0.0)
+      inside = {tuple(_np.asarray(r).ravel().tolist()) for r in _np.asarray(inside)}
+      after = kdata(rngs())
+    except Exception as e:
+      chk.violation(key, f'raised {type(e).__name__}: {str(e)[:160]}', {})
+      continue
+    if after in inside:
+      chk.violation(key + ':count-update-discarded', f'the first key drawn after nnx.{tr} is a key that was handed out inside it (the count increment '
+                                                     f'made inside the body is dropped: count after = {int(rngs.default.count.value)})', {})
